@@ -189,6 +189,9 @@ def main():
                  kind_free_text="TLC model checking of two hubs + TLC environment scripts on two real hubs over loopback TLS + TLC monitor at quiescence"),
             dict(name="timer", path="spec/Timer.tla spec/AbsTimer.tla spec/TimerGen.tla spec/MonTimer.tla harness/cmd/timer tools/check_timer.py",
                  serves_properties=["C14"], kind_free_text="TLC refinement check + script enumeration on real timers + TLC monitor pass"),
+            dict(name="bad-input", path="spec/MdnsBadGen.tla spec/MonBad.tla spec/WsGen.tla spec/MonWs.tla harness/cmd/mdnsmgr harness/cmd/wsconn tools/check_bad.py",
+                 serves_properties=["C08"],
+                 kind_free_text="TLC-enumerated tables of awkward mDNS resolver inputs and of websocket frames a SHIP peer must never send, run on the real MdnsManager / websocket connection + TLC monitor pass"),
         ],
         checks=checks,
         notes="Exit 2 = infrastructure failure (never a verdict). Known findings: known_findings.txt. See DESIGN.md.",
